@@ -135,7 +135,27 @@ impl Directive for Global
 						{
 							match ctx.defer_constant(name, dst_realm)
 							{
-								Ok(()) => return Ok(()),
+								Ok(()) =>
+								{
+									// the value can only arrive in the parent scope: one found here at the end of the file is a second definition
+									let name = name.to_owned();
+									let (line, col) = (args.line, args.col);
+									let this = *self;
+									ctx.add_task(Box::new(move |ctx|
+									{
+										match ctx.get_constant(name.as_str(), Realm::Local)
+										{
+											Lookup::Found(..) =>
+											{
+												let source = Box::new(GlobalError::Duplicate{name, realm: Realm::Local});
+												ctx.push_error(Positioned{line, col, value: DirectiveErrorKind::Apply{dir: this.get_name().to_owned(), source}});
+												Err(ErrorLevel::Trivial)
+											},
+											_ => Ok(()),
+										}
+									}), Realm::Local);
+									return Ok(());
+								},
 								Err(ConstantError::Duplicate{name, realm}) =>
 								{
 									let source = Box::new(GlobalError::Duplicate{name, realm});
